@@ -226,6 +226,7 @@ def run(ctx, rep):
     # ---- R-C05-9 which stripes check/fix process when the parity is filtered out: every stripe holding a block of a selected file,
     # whatever the state of that block (CHG / REP blocks of a file recorded by an interrupted sync can be recovered too)
     stripe_selection_rule(P, rep, 'R-C05-9')
+    buffer_slot_rule(P, rep, 'R-C05-10')
 
     # ---- R-C05-8 a per-file flag that steers a write decision is read only after the site that computes it
     rep.rule('R-C05-8', 'state_check_process: every test of a file flag computed by the first-open detection (FILE_IS_UNSYNCED) is reached only after that detection in the same disk iteration (a --filter-error/-e fix never acts on a stale flag)', 1)
@@ -354,19 +355,14 @@ def hash_provenance_rules(P, rep, rid, st):
     # (b) REP -> DELETED invalidates
     d = P.fn('scan_file_deallocate')
     rep.analysed(d)
-    sw = [d.term(b) for b in range(len(d.blocks)) if d.term(b).op == 'switch']
     dele = [x for x in d.calls('block_state_set')]
     inval = list(d.calls('hash_invalid_set'))
-    ok = len(sw) == 1 and len(dele) == 1
-    if ok:
-        repb = [cb for cv, cb in sw[0].cases if cv == st['REP']]
-        ok = len(repb) == 1 and d.must_pass(dele[0], inval, start=d.blocks[repb[0]][0])
-    rep.check(ok, rid, 'scan_file_deallocate: a REP block is always invalidated before becoming DELETED', d.file, '', function='scan_file_deallocate', construct='REP to DELETED')
-    ok = False
-    if len(sw) == 1:
-        blkb = [cb for cv, cb in sw[0].cases if cv == st['BLK']]
-        ok = len(blkb) == 1 and not any(x.id in d.reach([d.blocks[blkb[0]][0]], stop={dele[0].id}, include_start=True) for x in inval)
-    rep.check(ok, rid, 'scan_file_deallocate: a BLK block keeps its hash (it is what the parity holds)', d.file, '', function='scan_file_deallocate', construct='BLK to DELETED')
+    repb = state_case_entries(d, st['REP'])
+    ok = len(dele) == 1 and bool(repb) and all(d.must_pass(dele[0], inval, start=d.blocks[b_][0]) for b_ in repb)
+    rep.check(ok, rid, 'scan_file_deallocate: a REP block is always invalidated before becoming DELETED', d.file, '%d entries of the REP case' % len(repb), function='scan_file_deallocate', construct='REP to DELETED')
+    blkb = state_case_entries(d, st['BLK'])
+    ok = len(dele) == 1 and bool(blkb) and not any(x.id in d.reach([d.blocks[b_][0]], stop={dele[0].id}, include_start=True) for x in inval for b_ in blkb)
+    rep.check(ok, rid, 'scan_file_deallocate: a BLK block keeps its hash (it is what the parity holds)', d.file, '%d entries of the BLK case' % len(blkb), function='scan_file_deallocate', construct='BLK to DELETED')
     # (c) new CHG blocks (the code may live in a static helper split out of scan_file_allocate)
     root = P.fn('scan_file_allocate')
     a = locate_in_helpers(P, root, lambda g: any(g.const_of(x.ops[1]) == st['CHG'] for x in g.calls('block_state_set')))
@@ -428,3 +424,54 @@ def stripe_selection_rule(P, rep, rid):
     want = {('block_has_file', True), ('file_flag_has', False)}
     rep.check(preds == want, rid, 'block_is_enabled (check): file-based inclusion', f.file, 'included under %s' % sorted(preds) if preds == want else 'the per-disk inclusion is decided by %s instead of block_has_file && !excluded: stripes whose selected file has only not-yet-synced blocks are skipped, the file is never opened nor recovered' % sorted(preds),
               function='block_is_enabled', construct='check stripe selection')
+
+
+def buffer_slot_rule(P, rep, rid):
+    """the repair functions receive the stripe buffers indexed by disk slot and the failed blocks as a list; the j-th failed entry is
+    the block of slot failed[j].index.  Every access to buffer[] in them must go through that slot number (or address the parity area
+    diskmax + level): indexing buffer[] with the position in the failed list reads another disk's block whenever the two differ --
+    e.g. the "recovered block is all zero, maybe it is the old content" test then looks at good data of disk 0 and accepts the zeros"""
+    rep.rule(rid, 'repair / repair_step / is_hash_matching: buffer[] is indexed by failed[..].index or diskmax + parity index, never by the bare position in the failed list', 2)
+    n = 0
+    for fn in ('repair', 'repair_step', 'is_hash_matching'):
+        f = P.fn(fn)
+        rep.analysed(f)
+        seen = {}
+        pn = [k for k, a in enumerate(f.args) if a.get('name') == 'diskmax']
+        for i in f.all_insts():
+            if i.op != 'getelementptr' or len(i.ops) != 2:
+                continue
+            e = f.expr(['i', i.id])
+            if not e.startswith('&buffer['):
+                continue
+            src = f.value_sources(i.ops[1])
+            slot = any(x[0] == 'mem' and x[1].endswith('.index') for x in src)
+            par = any(x[0] == 'arg' and x[1] in pn for x in src)
+            key = (e, slot or par)
+            if key in seen:
+                continue
+            seen[key] = 1
+            n += 1
+            rep.check(slot or par, rid, '%s: %s' % (fn, e.lstrip('&')), i.loc(),
+                      'through %s' % ('failed[].index' if slot else 'diskmax + level') if slot or par else 'the index derives only from %s: the position in the failed list is used as a disk slot, another disk\'s block is examined whenever the failed block is not on the first slots' % sorted(str(x) for x in src),
+                      function=fn, construct='buffer index')
+    if n < 2:
+        raise AnalysisBroken('repair: buffer[] accesses not recognised (%d)' % n)
+
+
+def state_case_entries(f, k):
+    """blocks of `f` entered exactly when the state obtained from block_state_get() equals the constant k: the destinations of a
+    `switch` case, or the equal side of an == / != comparison -- so a switch and an if / else-if chain are read alike"""
+    out = []
+    def is_state(o):
+        src = f.value_sources(o)
+        return bool(src) and all(x == ('call', 'block_state_get') for x in src)
+    for b in range(len(f.blocks)):
+        t = f.term(b)
+        if t.op == 'switch' and is_state(t.ops[0]):
+            out += [cb for cv, cb in t.cases if cv == k]
+        elif t.op == 'br' and len(t.ops) == 3:
+            ci = f.inst_of(t.ops[0])
+            if ci is not None and ci.op == 'icmp' and ci.pred in ('eq', 'ne') and f.const_of(ci.ops[1]) == k and is_state(ci.ops[0]):
+                out.append(t.ops[2][1] if ci.pred == 'eq' else t.ops[1][1])
+    return list(dict.fromkeys(out))
